@@ -542,3 +542,111 @@ Fixpoint late_sched (n : nat) : list cev :=
   | O => []
   | S n' => SenderStep :: ReaderStep :: SenderStep :: late_sched n'
   end.
+
+(* ---- redelivery on ONE long-lived executor --------------------------------------------------------
+   "A deposit stuck as pending is released for re-execution ... a failure while executing never leaves
+   the executor unable to process later deliveries": a delivery that finds a proposal recorded neither
+   executed nor pending (missing, or failed - e.g. released by a retry) must take it on for execution,
+   whatever happened on this executor object before, unless an execution of that very proposal is still
+   in progress on it (then leaving it to that execution is a legitimate choice; the code as it stands
+   takes it on all the same).
+   The judge follows, from what the implementation was SEEN to select, which deliveries' executions are
+   in progress: the execution of a delivery made through the bookkeeping hook ([Deliver] with
+   [live = false]) is in progress until an [ExecOk i] / [ExecFail i] for it arrives; a delivery that was a
+   whole Executor.Execute call which has RETURNED ([live = true]: it failed before the broadcast - fee or
+   UTXO lookup, unknown resource, bad recipient, metadata upload, key share, signing error or timeout)
+   has nothing in progress any more. *)
+Definition jbatch := (list key * bool)%type.   (* what a delivery selected; its execution is in progress *)
+
+Definition in_progress (bs : list jbatch) (k : key) : bool :=
+  existsb (fun b : jbatch => snd b && memk k (fst b)) bs.
+
+Fixpoint close_batch (i : nat) (bs : list jbatch) : list jbatch :=
+  match bs, i with
+  | [], _ => []
+  | b :: r, O => (fst b, false) :: r
+  | b :: r, S i' => b :: close_batch i' r
+  end.
+
+(* what the judge knows about the executor: the deliveries that selected something, and the proposals
+   of deliveries made through the bookkeeping hook that ended with a store error (the real Execute
+   returns at once then and nothing is in progress; the hook is not Execute, so the judge does not
+   claim to know: it never demands anything for them again) *)
+Definition jstate := (list jbatch * list key)%type.
+
+Definition busy (j : jstate) (k : key) : bool := in_progress (fst j) k || memk k (snd j).
+
+(* every delivered proposal that is startable and has no execution in progress is selected *)
+Definition deliver_ok (pre : kv) (j : jstate) (ks sel : list key) : bool :=
+  forallb (fun k => implb (startable (get pre k) && negb (busy j k)) (memk k sel)) ks.
+
+Definition redeliver_step (pre : kv) (j : jstate) (o : op) (live : bool) (ob : obs) : bool * jstate :=
+  match o, ob with
+  | Deliver ks, (ODeliver (Some sel), failed, _) =>
+      (match failed with [] => deliver_ok pre j ks sel | _ => true end, (fst j ++ [(sel, negb live)], snd j))
+  | Deliver ks, (ODeliver None, _, _) => (true, (fst j, if live then snd j else ks ++ snd j))
+  | ExecOk i, (OExec, _, _) => (true, (close_batch i (fst j), snd j))
+  | ExecFail i, (OExec, _, _) => (true, (close_batch i (fst j), snd j))
+  | _, _ => (true, j)
+  end.
+
+(* [lives]: per operation, whether it was a whole Execute call that has returned (missing entries: no) *)
+Fixpoint redeliver_ok (pre : kv) (j : jstate) (ops : list op) (lives : list bool) (obs_ : list obs) : bool :=
+  match ops, obs_ with
+  | o :: r, ob :: obs' =>
+      fst (redeliver_step pre j o (hd false lives) ob)
+      && redeliver_ok (snd ob) (snd (redeliver_step pre j o (hd false lives) ob)) r (tl lives) obs'
+  | _, _ => true
+  end.
+
+Definition jinit : jstate := ([], []).
+
+(* NOT the code - an executor that remembers in memory which proposals it marked pending ("being
+   signed"), skips those in later deliveries, and forgets them only where an execution reports its
+   broadcast (ExecOk / ExecFail): an execution that fails EARLIER leaves the mark for ever.  Kept to
+   state what goes wrong with it ([marker_run] : the history such an executor produces). *)
+Definition marker_step (o : op) (z : state * list key) : (state * list key) * out :=
+  let (x, fl) := z in
+  match o with
+  | Deliver ks =>
+      let (x', ou) := step (Deliver (filter (fun k => negb (memk k fl)) ks)) x in
+      ((x', match ou with ODeliver (Some sel) => sel ++ fl | _ => fl end), ou)
+  | ExecOk i | ExecFail i =>
+      let (x', ou) := step o x in
+      ((x', filter (fun k => negb (memk k (nth i (batches x) []))) fl), ou)
+  | _ => let (x', ou) := step o x in ((x', fl), ou)
+  end.
+
+Fixpoint marker_run (ops : list op) (z : state * list key) : list obs :=
+  match ops with
+  | [] => []
+  | o :: r => let (z', ou) := marker_step o z in
+              (ou, s_failed (st (fst z')), s_kv (st (fst z'))) :: marker_run r z'
+  end.
+
+(* ---- the EVM / Substrate executors: no status store, "executed" is what the destination says --------
+   One whole Executor.Execute call: per delivered proposal the destination's executed-status lookup (an
+   error of it ends the call), the proposals not reported executed are handed to ProposalsHash and to a
+   signing session.  [xfail] = where the call of the correspondence run is made to fail (always before
+   anything is broadcast). *)
+Inductive xkind := Xevm | Xsub.
+Inductive xfail := XQuery (i : nat) | XHash | XKeyshare | XSign.
+
+(* the proposals handed to ProposalsHash *)
+Definition xexec (executed ks : list key) (f : xfail) : list key :=
+  match f with
+  | XQuery i => if Nat.ltb i (length ks) then [] else filter (fun k => negb (memk k executed)) ks
+  | _ => filter (fun k => negb (memk k executed)) ks
+  end.
+
+Definition xlookup_failed (ks : list key) (f : xfail) : bool :=
+  match f with XQuery i => Nat.ltb i (length ks) | _ => false end.
+
+(* the specification of one delivery, whatever happened on the executor before: unless a status lookup
+   of this very call failed, the call returns and every delivered proposal the destination does not
+   report executed was taken on *)
+Definition xdeliver_ok (executed ks : list key) (f : xfail) (hung : bool) (hashed : list key) : bool :=
+  negb hung &&
+  (xlookup_failed ks f || forallb (fun k => implb (negb (memk k executed)) (memk k hashed)) ks).
+
+Record xstep := mkXStep { x_keys : list key; x_fail : xfail; x_hung : bool; x_hashed : list key }.
